@@ -161,6 +161,8 @@ func c01(r *Run) {
 	defer func() {
 		r.importRules(c08, "C08.R2", "C08.R3")
 		r.importRules(c04, "C04.R3", "C04.R4")
+		// each task sees the complete prefetched state of its own transaction
+		r.importRules(c24, "C24.R7")
 	}()
 	r.rule("C01.R1", "K3", "tasks never mutate the fee manager; Consume is sequential and its ok edge dominates the task's queueing", 3)
 	r.rule("C01.R2", "K5", "view scope == conflict keys at every Executor.Run site in package chain", 2)
